@@ -58,6 +58,8 @@ func init() {
 		{"C07", "adder", props.C07adder},
 		{"C05", "adder", props.C07adder},
 		{"C17", "garble", props.C01},
+		{"C17", "offset", props.C01offset},
+		{"C17", "entropy", props.C17entropy},
 		{"C18", "puts", props.C17puts},
 		{"C12", "signedread", props.SignedReads},
 		{"C03", "signedread", props.SignedReads},
